@@ -12,6 +12,7 @@ CONSTANTS
   MaxStall = 0
   RotateFollows = TRUE
   WholeBatches = TRUE
+  PollRereads = TRUE
   GenLen = 24
   MinLen = 6
 CHECK_DEADLOCK FALSE
